@@ -6,6 +6,7 @@ import (
 	"bytes"
 	"fmt"
 	"sort"
+	"strings"
 	"testing"
 
 	"pgregory.net/rapid"
@@ -114,8 +115,23 @@ func c17Gen(t *rapid.T) c17Case {
 		x = vfGenSeed(t)
 	case 1, 2:
 		x = vfMutate(t, vfGenSeed(t), 3)
-	case 3: // seed + random tail
-		x = append(vfGenSeed(t), rapid.SliceOfN(rapid.Byte(), 0, 80).Draw(t, "tail")...)
+	case 3: // seed + tail: short random, or long (zeros / repeated pattern / text / another seed) so that
+		// checks which look far into the header see something there
+		x = vfGenSeed(t)
+		switch rapid.IntRange(0, 4).Draw(t, "tailkind") {
+		case 0:
+			x = append(x, rapid.SliceOfN(rapid.Byte(), 0, 80).Draw(t, "tail")...)
+		case 1:
+			x = append(x, make([]byte, rapid.IntRange(1, 4200).Draw(t, "zeros"))...)
+		case 2:
+			pat := rapid.SliceOfN(rapid.Byte(), 1, 6).Draw(t, "pat")
+			x = append(x, bytes.Repeat(pat, rapid.IntRange(1, 900).Draw(t, "reps"))...)
+		case 3:
+			x = append(x, strings.Repeat(rapid.SampledFrom([]string{"lorem ipsum ", "a,b\n", "{\"k\":1}\n", "\xff\xfb\x90\x00", "<a>"}).Draw(t, "txt"), rapid.IntRange(1, 400).Draw(t, "treps"))...)
+		default:
+			x = append(x, make([]byte, rapid.IntRange(0, 300).Draw(t, "gap"))...)
+			x = append(x, vfGenSeed(t)...)
+		}
 	case 4:
 		x = c03Binary(t)
 		x = append(x, rapid.SliceOfN(rapid.Byte(), 0, 40).Draw(t, "tail")...)
